@@ -71,6 +71,9 @@ func genStreamClient(r *simrt.Rand, p *Plan, conn int, big *int) {
 		if sp.Echo {
 			expect += n
 		}
+		if r.Chance(1, 8) && written < nw {
+			ops = append(ops, Op{Kind: "swrite", Stream: k, Bad: "encode"})
+		}
 		if r.Bool() && read < expect {
 			m := 1 + r.Intn(expect-read)
 			ops = append(ops, Op{Kind: "sread", Stream: k, N: m})
